@@ -26,6 +26,7 @@ RULE = (
 RULE += '; the function may raise an Exception whose instance is falsy'
 RULE += "; built-in exception classes (InvalidStateError, RuntimeError, LookupError, AssertionError ...) as the function's outcome"
 RULE += '; the decorated function may have been used under another event loop before; the callable may be a functools.partial or an object with an async __call__'
+RULE += '; returned exception instances; the calling task may have absorbed a cancel earlier'
 LEVEL_TEXT = (
     "Single-fault enumeration: the caller cancellation is injected at every instant of a complete integer time grid "
     "around the function's end and the deadline, for every outcome kind; the oracle is a case analysis on the earliest "
@@ -54,7 +55,8 @@ _BUILTIN_EXC = {
     "AssertionError": AssertionError,
     "AttributeError": AttributeError,
 }
-EXTRA_KINDS = ["exc_timeout", "exc_falsy", *(f"exc_b_{n}" for n in _BUILTIN_EXC)]
+# "value_exc": the function RETURNS an exception instance (a result-or-error record): a value like any other
+EXTRA_KINDS = ["exc_timeout", "exc_falsy", "value_exc", "value_cancelled", *(f"exc_b_{n}" for n in _BUILTIN_EXC)]
 
 
 class FnTimeout(TimeoutError):
@@ -113,6 +115,10 @@ def _run_timed(case, inject_iter):
     own_timeout = FnTimeout("fn's own timeout")
     falsy = FnFalsy("fn")
     builtin_exc = _BUILTIN_EXC[kind[6:]]("fn") if kind.startswith("exc_b_") else None
+    if kind == "value_exc":
+        val = ValueError("returned, not raised")
+    elif kind == "value_cancelled":
+        val = asyncio.CancelledError("returned, not raised")
     t_end = max(d, tau, c or 0, (case.get("bg") or {}).get("d", 0)) + e + 3
 
     async def main(loop):
@@ -142,7 +148,7 @@ def _run_timed(case, inject_iter):
                         await asyncio.sleep(e)
                         return val
                     raise
-                if kind in ("value", "ignore"):
+                if kind in ("value", "ignore", "value_exc", "value_cancelled"):
                     return val
                 if kind == "exc":
                     raise err
@@ -190,6 +196,16 @@ def _run_timed(case, inject_iter):
         obs: dict = {}
 
         async def caller():
+            if case.get("swallowed_cancel"):
+                # the calling task absorbed a cancellation request earlier (Task.cancelling() stays > 0): the call is made
+                # and judged like any other
+                asyncio.current_task().cancel()
+                try:
+                    await asyncio.sleep(0)
+                except asyncio.CancelledError:
+                    pass
+                holder["danced"].set_result(None)
+                await holder["go"]  # the judged call (and the generated cancellation of it) starts from here
             try:
                 if case.get("in_scope"):
                     # the call is made from inside a scope (the library's normal habitat): same outcomes
@@ -214,7 +230,12 @@ def _run_timed(case, inject_iter):
 
             bg_task = loop.create_task(bg_caller())
             await asyncio.sleep(bg["lead"])
+        if case.get("swallowed_cancel"):
+            holder["danced"], holder["go"] = loop.create_future(), loop.create_future()
         task = loop.create_task(caller())
+        if case.get("swallowed_cancel"):
+            await holder["danced"]
+            holder["go"].set_result(None)
         origin = t0 + (bg["lead"] if bg is not None else 0)  # absolute start time of the judged call
         task.add_done_callback(lambda t: obs.setdefault("t", loop.time() - origin))
         holder["task"] = task
@@ -306,7 +327,7 @@ def _run_timed(case, inject_iter):
                 if rk == "exc" and isinstance(rv, TimeoutError) and t == first:
                     ok = True
             else:  # the function's own outcome at time d
-                if kind in ("value", "ignore"):
+                if kind in ("value", "ignore", "value_exc", "value_cancelled"):
                     expected.append(("value", first))
                     if rk == "ret" and rv is val and t == first:
                         ok = True
@@ -407,6 +428,8 @@ def enumerate_cases(tier):
         yield {"d": d, "steps": 1, "outcome": "exc_falsy", "e": 2, "tau": tau, "c": c}
     for d, tau, c, kind, extra in itertools.product([0, 1, 3], [2], [None, 1], KINDS, [{"second_loop": True}, {"callable": "partial"}, {"callable": "object"}]):
         yield {"d": d, "steps": 1, "outcome": kind, "e": 2, "tau": tau, "c": c, **extra}
+    for d, tau, c, kind in itertools.product([0, 1, 3], [2], [None, 1], [*KINDS, "value_exc", "value_cancelled"]):
+        yield {"d": d, "steps": 1, "outcome": kind, "e": 2, "tau": tau, "c": c, "swallowed_cancel": True}
     for d, tau, c, name in itertools.product([0, 1, 3], [2], [None, 1], list(_BUILTIN_EXC)):
         yield {"d": d, "steps": 1, "outcome": f"exc_b_{name}", "e": 2, "tau": tau, "c": c}
     # two overlapping calls of ONE decorated function: an earlier call ends (value / exception / its own timeout) while the
@@ -421,7 +444,7 @@ def enumerate_cases(tier):
 def strategy(tier):
     eighth = st.integers(0, 48).map(lambda n: n / 8)
     return st.builds(
-        lambda d, steps, kind, e, tau, c, t0, bg, sc, sl, cb: {"d": d, "steps": steps, "outcome": kind, "e": e, "tau": tau, "c": c, "t0": t0, "bg": bg, "in_scope": sc, "second_loop": sl, "callable": cb},
+        lambda d, steps, kind, e, tau, c, t0, bg, sc, sl, cb: {"d": d, "steps": steps, "outcome": kind, "e": e, "tau": tau, "c": c, "t0": t0, "bg": bg, "in_scope": sc, "second_loop": sl, "callable": cb, "swallowed_cancel": cb is None and sl and sc},
         eighth,
         st.sampled_from([1, 2, 4]),
         st.sampled_from(KINDS + EXTRA_KINDS),
